@@ -39,6 +39,8 @@ type fault struct {
 // faulty wraps the scripted connection.
 type faulty struct {
 	r         *sess.Reactive
+	cancel    context.CancelFunc // kind "cancel": called right before the at-th I/O operation is served
+	ops       int
 	f         fault
 	delivered int
 	reads     int
@@ -46,7 +48,16 @@ type faulty struct {
 	hit       bool
 }
 
+func (c *faulty) op() {
+	if c.f.kind == "cancel" && c.ops == c.f.at && c.cancel != nil {
+		c.hit = true
+		c.cancel()
+	}
+	c.ops++
+}
+
 func (c *faulty) Read(p []byte) (int, error) {
+	c.op()
 	i := c.reads
 	c.reads++
 	if c.f.kind == "read-error" && i == c.f.at {
@@ -69,6 +80,7 @@ func (c *faulty) Read(p []byte) (int, error) {
 }
 
 func (c *faulty) Write(p []byte) (int, error) {
+	c.op()
 	i := c.writes
 	c.writes++
 	switch {
@@ -135,8 +147,11 @@ func initiator(state xmpp.SessionState, ws bool, feats func() []xmpp.StreamFeatu
 		c := &faulty{r: sess.NewReactive(func(step int, w string) (string, error) { return script(step, w), nil }), f: f}
 		var s *xmpp.Session
 		var err error
+		ctx, cancel := context.WithCancel(context.Background())
+		defer cancel()
+		c.cancel = cancel
 		p := nd.Catch(func() {
-			s, err = xmpp.NewSession(context.Background(), location, origin, c, state, negotiator(ws, feats()...))
+			s, err = xmpp.NewSession(ctx, location, origin, c, state, negotiator(ws, feats()...))
 		})
 		return finish(s, err, p, c)
 	}
@@ -147,8 +162,11 @@ func receiver(state xmpp.SessionState, ws bool, feats func() []xmpp.StreamFeatur
 		c := &faulty{r: sess.NewReactive(func(step int, w string) (string, error) { return script(step, w), nil }), f: f}
 		var s *xmpp.Session
 		var err error
+		ctx, cancel := context.WithCancel(context.Background())
+		defer cancel()
+		c.cancel = cancel
 		p := nd.Catch(func() {
-			s, err = xmpp.ReceiveSession(context.Background(), c, state, negotiator(ws, feats()...))
+			s, err = xmpp.ReceiveSession(ctx, c, state, negotiator(ws, feats()...))
 		})
 		return finish(s, err, p, c)
 	}
@@ -243,8 +261,11 @@ var handshakes = []handshake{
 		}), f: f}
 		var s *xmpp.Session
 		var err error
+		ctx, cancel := context.WithCancel(context.Background())
+		defer cancel()
+		c.cancel = cancel
 		p := nd.Catch(func() {
-			s, err = component.NewSession(context.Background(), jid.MustParse("comp.example.com"), []byte("secret"), c)
+			s, err = component.NewSession(ctx, jid.MustParse("comp.example.com"), []byte("secret"), c)
 		})
 		return finish(s, err, p, c)
 	}},
@@ -313,8 +334,11 @@ var handshakes = []handshake{
 	})},
 	{"starttls-sasl-bind-initiator", func(f fault) result {
 		var c *faulty
-		c02.WrapConn = func(r *sess.Reactive) io.ReadWriter { c = &faulty{r: r, f: f}; return c }
-		defer func() { c02.WrapConn = nil }()
+		ctx, cancel := context.WithCancel(context.Background())
+		defer cancel()
+		c02.WrapConn = func(r *sess.Reactive) io.ReadWriter { c = &faulty{r: r, f: f, cancel: cancel}; return c }
+		c02.WrapCtx = func(context.Context) context.Context { return ctx }
+		defer func() { c02.WrapConn, c02.WrapCtx = nil, nil }()
 		ready, errText, p := c02.TLSHandshake()
 		res := result{ready: ready, panic: p, conn: c}
 		if errText != "" {
@@ -358,7 +382,7 @@ func base(h int) baseline {
 	return b
 }
 
-var kinds = []string{"cut", "read-error", "write-error", "short-write"}
+var kinds = []string{"cut", "read-error", "write-error", "short-write", "cancel"}
 
 func faultBody(stride int) nd.Body {
 	return func(c *nd.Ctx) nd.Result {
@@ -386,6 +410,11 @@ func faultBody(stride int) nd.Body {
 			bound = b.reads
 		case "write-error", "short-write":
 			bound = b.writes
+		case "cancel":
+			// the context is cancelled right before the at-th read or write of the
+			// handshake is served (0: before any I/O); the transport is a plain
+			// io.ReadWriter, so only the library's own checks can notice
+			bound = b.reads + b.writes
 		}
 		if kind == "cut" {
 			bound = (bound + stride - 1) / stride
